@@ -346,10 +346,40 @@ Definition op_usages (fs : list fraginfo) (o : opinfo) : option (list usage) :=
   | None => None
   end.
 
-(* ---- NoFragmentCyclesRule.detect_cycle_recursive ---- *)
+(* ---- NoFragmentCyclesRule.detect_cycle_recursive ----
+   state threaded through the whole search: (visited_frags, errors so far); spread_path and
+   spread_path_index_by_name are restored on return, hence passed down.  An error is the list of
+   spreads spread_path[cycle_index:]. *)
+Definition cstate := (list str * list (list spread))%type.
+
+Section DLoop.
+  (* the recursive call: fragment, spread_path, state *)
+  Variable rec : fraginfo -> list spread -> cstate -> option cstate.
+  Variable fs : list fraginfo.
+  Variable spath : list spread.
+  Variable index' : list (str * nat).
+  (* `for spread_node in spread_nodes:` *)
+  Fixpoint dloop (sps : list spread) (st : cstate) {struct sps} : option cstate :=
+    match sps with
+    | [] => Some st
+    | s :: r =>
+      match lookup (sp_name s) index' with
+      | None =>
+        match get_fragment fs (sp_name s) with
+        | Some g =>
+          match rec g (spath ++ [s]) st with
+          | Some st' => dloop r st'
+          | None => None
+          end
+        | None => dloop r st
+        end
+      | Some ci => dloop r (fst st, snd st ++ [skipn ci (spath ++ [s])])
+      end
+    end.
+End DLoop.
+
 Fixpoint detect (fuel : nat) (fs : list fraginfo) (f : fraginfo) (spath : list spread)
-         (index : list (str * nat)) (st : list str * list (list spread))
-  : option (list str * list (list spread)) :=
+         (index : list (str * nat)) (st : cstate) : option cstate :=
   match fuel with
   | O => None
   | S fuel' =>
@@ -360,30 +390,13 @@ Fixpoint detect (fuel : nat) (fs : list fraginfo) (f : fraginfo) (spath : list s
       | [] => Some st1
       | sps =>
         let index' := (f_name f, length spath) :: index in
-        (fix loop (sps : list spread) (st : list str * list (list spread)) {struct sps} :=
-           match sps with
-           | [] => Some st
-           | s :: r =>
-             match lookup (sp_name s) index' with
-             | None =>
-               match get_fragment fs (sp_name s) with
-               | Some g =>
-                 match detect fuel' fs g (spath ++ [s]) index' st with
-                 | Some st' => loop r st'
-                 | None => None
-                 end
-               | None => loop r st
-               end
-             | Some ci => loop r (fst st, snd st ++ [skipn ci (spath ++ [s])])
-             end
-           end) sps st1
+        dloop (fun g sp st' => detect fuel' fs g sp index' st') fs spath index' sps st1
       end
   end.
 
 Definition cycles_fuel (fs : list fraginfo) : nat := S (length fs).
 
-Fixpoint detect_all (fuel : nat) (fs todo : list fraginfo) (st : list str * list (list spread))
-  : option (list str * list (list spread)) :=
+Fixpoint detect_all (fuel : nat) (fs todo : list fraginfo) (st : cstate) : option cstate :=
   match todo with
   | [] => Some st
   | f :: r => match detect fuel fs f [] [] st with
